@@ -6,7 +6,7 @@ import vp
 from checks import loadfam
 
 LOCS = ["en", "fr", "ru", "ar", "pl", "ja", "cy", "ga", "lv", "he"]
-COUNTS = ["0", "1", "2", "3", "5", "11", "21", "100", "1000000", "1.5"]
+COUNTS = ["0", "1", "2", "3", "5", "11", "21", "100", "1000000", "1.5", "-1", "-2"]
 
 
 def plural_oracle(run, locales, counts):
